@@ -29,6 +29,14 @@ impl Same for Plain { fn same(&self, o: &Self) -> bool { self.id == o.id && self
 #[derive(Debug, Clone, PartialEq, ElixirStruct)]
 #[elixir_module = "MyApp.Item"]
 struct Item { count: i64, label: String, maybe: Option<i32>, list: Vec<u8> }
+/// field names that are Rust keywords (written as raw identifiers), derived and plain
+#[derive(Debug, Clone, PartialEq, ElixirStruct)]
+#[elixir_module = "MyApp.Event"]
+struct Event { r#type: String, r#ref: i64, r#fn: Option<i32>, plain: bool }
+impl Same for Event { fn same(&self, o: &Self) -> bool { self == o } }
+#[derive(Debug, Clone, PartialEq, Serialize, Deserialize)]
+struct RawPlain { r#type: String, r#match: u8, other: Vec<i8> }
+impl Same for RawPlain { fn same(&self, o: &Self) -> bool { self == o } }
 #[derive(Debug, Clone, PartialEq, Serialize, Deserialize)]
 struct Holder { items: Option<Vec<i32>>, names: Option<Vec<String>>, map: Option<BTreeMap<i64, String>> }
 impl Same for Holder { fn same(&self, o: &Self) -> bool { self == o } }
@@ -182,6 +190,9 @@ fn main() {
     check(&rep, "Plain{tags: empty, opt: Some(0)}", &Plain { id: 0, name: "".into(), ratio: 0.0, flag: false, tags: vec![], opt: Some(0) });
     check(&rep, "Item{list: empty, maybe: Some(0)}", &Item { count: 0, label: "".into(), maybe: Some(0), list: vec![] });
     check(&rep, "Holder{items: Some(empty)}", &Holder { items: Some(vec![]), names: Some(vec![]), map: Some(BTreeMap::new()) });
+    check(&rep, "Event{r#type, r#ref, r#fn} (ElixirStruct, keyword field names)", &Event { r#type: "click".into(), r#ref: 1 << 40, r#fn: Some(-1), plain: true });
+    check(&rep, "Vec<Event>", &vec![Event { r#type: "".into(), r#ref: 0, r#fn: None, plain: false }]);
+    check(&rep, "RawPlain{r#type, r#match}", &RawPlain { r#type: "t".into(), r#match: 255, other: vec![-128, 127] });
     check(&rep, "Holder{items: None}", &Holder { items: None, names: Some(vec!["".into()]), map: None });
     check(&rep, "Shape::Rec{h: Some(0)}", &Shape::Rec { w: 0, h: Some(0) });
     for sh in [Shape::Unit, Shape::Other, Shape::New(-1), Shape::Tup(0, "".into()), Shape::Rec { w: 0, h: None }, Shape::Rec { w: u64::MAX, h: Some(i8::MIN) }] {
@@ -192,10 +203,31 @@ fn main() {
     rep.sample(json!({"type": "i64", "values": "all +-(2^k + {-1,0,1}), k = 1..62, and the extremes"}));
     rep.sample(json!({"type": "Plain{id:i64,...}", "value": "Plain { id: 1099511627776, name: \"n\", ratio: 0.5, flag: true, tags: [1, 65535], opt: Some(7) }"}));
     rep.sample(json!({"type": "char", "values": if thorough { "all 1 112 064 scalar values" } else { "all below U+0800 and every plane boundary" }}));
+    // the byte round trip must not depend on what the thread was asked to deserialise (and rejected) before
+    {
+        let nest = |pre: &[u8], d: usize| { let mut v = vec![131u8]; for _ in 0..d { v.extend_from_slice(pre); } v.extend_from_slice(&[97, 1]); v };
+        let mut junk: Vec<Vec<u8>> = vec![vec![], vec![131], vec![131, 82], vec![131, 104, 2, 97, 1], vec![131, 108, 0, 0, 0, 1, 97, 1], vec![131, 116, 0, 0, 0, 1, 97, 1], vec![131, 104, 1, 82], vec![131, 119, 2, 0xff, 0xfe], vec![131, 200],
+            nest(&[104, 1], 300), nest(&[108, 0, 0, 0, 1], 300), nest(&[88], 300)];
+        for t in 0..=255u8 { junk.push(vec![131, t]); }
+        let canary = Plain { id: 1 << 40, name: "n".into(), ratio: 0.5, flag: true, tags: vec![1, 65535], opt: Some(7) };
+        let deep: Vec<Vec<Vec<Vec<Option<(i32, String)>>>>> = vec![vec![vec![vec![Some((1, "x".into())), None]]]];
+        junk.par_iter().for_each(|j| {
+            let (j, canary, deep) = (j.clone(), canary.clone(), deep.clone());
+            let jj = j.clone();
+            let ok = std::thread::spawn(move || {
+                for _ in 0..300 { let _ = from_bytes::<Plain>(&j); let _ = from_bytes::<i32>(&j); let _ = from_bytes::<Vec<String>>(&j); }
+                let a = to_bytes(&canary).ok().and_then(|b| from_bytes::<Plain>(&b).ok()).map(|x| x.same(&canary)).unwrap_or(false);
+                let b = to_bytes(&deep).ok().and_then(|b| from_bytes::<Vec<Vec<Vec<Vec<Option<(i32, String)>>>>>>(&b).ok()).map(|x| x == deep).unwrap_or(false);
+                a && b
+            }).join().unwrap_or(false);
+            rep.add("evaluations", 902);
+            if !ok { rep.violation("byte round trip of a value fails after the thread deserialised rejected input", json!({"rejected_input_900_times_before": vcore::report::hex(&jj)})); }
+        });
+    }
     json!({
         "evaluations": rep.get("evaluations"),
         "distinct_nontrivial": rep.get("evaluations"),
-        "rule": "monomorphised family: i8/u8/i16/u16 over their entire range, i32/u32/i64/u64 at every power of two +-1 (and 65 536 further 32-bit values), chars (every plane boundary; all scalar values in thorough), f32 (boundary set; all 2^32 bit patterns in thorough), f64 boundary set, 9 strings, and Option/Vec/tuples/HashMap<String,_>/BTreeMap<i64,_>/named struct/ElixirStruct derive/newtype/tuple struct/four enum variant shapes wrapped around them; each value through to_term/from_term and to_bytes/from_bytes; every generated (type, value) is distinct",
+        "rule": "monomorphised family: i8/u8/i16/u16 over their entire range, i32/u32/i64/u64 at every power of two +-1 (and 65 536 further 32-bit values), chars (every plane boundary; all scalar values in thorough), f32 (boundary set; all 2^32 bit patterns in thorough), f64 boundary set, 9 strings, and Option/Vec/tuples/HashMap<String,_>/BTreeMap<i64,_>/named struct/ElixirStruct derive/newtype/tuple struct/four enum variant shapes wrapped around them; each value through to_term/from_term and to_bytes/from_bytes; every generated (type, value) is distinct; plus 268 history cases (a rejected input deserialised 900 times on a fresh thread, then two values through the byte round trip)",
         "exhaustive": true,
         "feature_set": "default features (elixir-interop off)",
     })
